@@ -161,6 +161,12 @@ impl TimeStrategy {
         (time_strategy, control)
     }
 
+    /// Verification hook H2: the computed (soft, hard) limits, read-only.
+    #[cfg(jgilchrist_tcheran_verif)]
+    pub fn verif_limits(&self) -> (Duration, Duration) {
+        (self.soft_stop, self.hard_stop)
+    }
+
     pub fn elapsed(&self) -> Duration {
         self.started_at.elapsed()
     }
